@@ -230,6 +230,85 @@ Plan gen_ansic_plan(uint64_t seed) {
   return build(r, seed, g, in, 1, 0, 1, 3, true);
 }
 
+// A front end that keeps one grammar object for the ANSI C grammar and parses many different translation units
+// with it (C14: each parse must equal the parse of a fresh object; hundreds of lookahead contexts, large tables).
+Plan gen_ansic_hist_plan(uint64_t seed) {
+  Rng r(seed * 0xD6E8FEB86659FD93ull + 11);
+  const char *dp = getenv("VSIM_ANSIC_DESC"), *tp = getenv("VSIM_ANSIC_TOKS");
+  Plan p;
+  if (!dp || !tp) return p;
+  static std::string desc;
+  static std::vector<int> toks;
+  static std::vector<size_t> cuts;
+  static std::vector<int> codes;
+  if (desc.empty()) {
+    std::ifstream df(dp), tf(tp);
+    std::stringstream ds;
+    ds << df.rdbuf();
+    desc = ds.str();
+    int c;
+    while (tf >> c) toks.push_back(c);
+    std::set<int> cs(toks.begin(), toks.end());
+    for (size_t i = 0; i + 2 < desc.size(); i++) {
+      if (desc[i] == '\'' && desc[i + 2] == '\'') cs.insert((unsigned char)desc[i + 1]);
+      if (desc[i] == '=') { size_t j = i + 1; while (j < desc.size() && (desc[j] == ' ' || desc[j] == '\t')) j++; if (j < desc.size() && isdigit((unsigned char)desc[j])) cs.insert(atoi(desc.c_str() + j)); }
+    }
+    codes.assign(cs.begin(), cs.end());
+    int depth = 0;
+    cuts.push_back(0);
+    for (size_t i = 0; i < toks.size(); i++) {
+      if (toks[i] == '{') depth++;
+      if (toks[i] == '}') depth--;
+      if (depth == 0 && (toks[i] == ';' || toks[i] == '}')) cuts.push_back(i + 1);
+    }
+  }
+  p.seed = seed;
+  p.mode = "ansichist";
+  static const int knobw[] = {0, 0, 1, 2, 3, 4};
+  p.cfg.knobs = knobw[r.below(6)];
+  p.cfg.poison = r.chance(1, 2) ? 0xAB : 0x5A;
+  p.cfg.pad = r.range(0, 3);
+  p.cfg.quarantine = r.range(0, 16);
+  p.cfg.realloc_mode = (int)r.below(3);
+  p.cfg.cache_skip = r.chance(2, 3) ? 0 : 16;
+  p.cfg.selfcheck = r.chance(1, 3) ? 1 : 0;
+  p.cfg.salt = r.next();
+  p.backends = r.chance(1, 3) ? 3 : 1;
+  GrammarSpec g;
+  g.text = true;
+  g.tag = "ansic";
+  g.desc = desc;
+  g.strict = 1;
+  g.expect = 0;
+  g.codes = codes;
+  p.grammars.push_back(g);
+  auto mk = [](OpKind k) { Op o; o.task = 1; o.kind = k; return o; };
+  p.ops.push_back(mk(OP_CREATE));
+  { Op o = mk(OP_SET); o.setter = S_LOOKAHEAD; o.value = (int)r.below(3); p.ops.push_back(o); }
+  { Op o = mk(OP_DEFINE); o.grammar = 0; p.ops.push_back(o); }
+  int n = r.range(3, 6);
+  for (int i = 0; i < n; i++) {
+    // a unit = a few consecutive top-level declarations starting anywhere in the file
+    std::vector<int> in;
+    for (int tries = 0; tries < 20 && in.empty(); tries++) {
+      size_t k = (size_t)r.below(cuts.size() - 1);
+      size_t e = std::min(cuts.size() - 1, k + (size_t)r.range(1, 4));
+      if (cuts[e] - cuts[k] <= 400) in.assign(toks.begin() + (long)cuts[k], toks.begin() + (long)cuts[e]);
+    }
+    if (r.chance(1, 6) && !in.empty()) in.erase(in.begin() + (long)r.below(in.size()));
+    p.inputs.push_back(in);
+    Op o = mk(OP_PARSE);
+    o.input = i;
+    o.alloc = r.chance(2, 3) ? AM_CUSTOM_FREE : AM_DEFAULT;
+    p.ops.push_back(o);
+    if (r.chance(1, 4)) { Op s2 = mk(OP_SET); s2.setter = S_LOOKAHEAD; s2.value = (int)r.below(3); p.ops.push_back(s2); }
+    if (r.chance(1, 8)) { Op d = mk(OP_DEFINE); d.grammar = 0; p.ops.push_back(d); }
+  }
+  p.ops.push_back(mk(OP_FREE_GRAMMAR));
+  for (int i = 0; i < n; i++) { Op f = mk(OP_FREE_TREE); f.tree = 0; p.ops.push_back(f); }
+  return p;
+}
+
 int perturb_main(int, char **) { return 2; }
 
 } // namespace sim
